@@ -318,6 +318,9 @@ def vin(a, b):
         return a in SStr.lift(b)
     if isinstance(a, SStr) and isinstance(b, (tuple, list, set, frozenset)) and all(isinstance(x, str) for x in b):
         return any(bool(a == x) for x in b)
+    if isinstance(a, SInt) and isinstance(b, (bytes, bytearray)):
+        from . import sym as _sym
+        return _sym.elem_in(a, list(b))
     return a in b
 
 
